@@ -150,7 +150,7 @@ def coq_sources():
     for root, dirs, files in os.walk(COQ):
         dirs[:] = sorted(d for d in dirs if d not in ("cases", "scratch"))
         for f in sorted(files):
-            if f.endswith(".v") and not f.startswith("."):
+            if f.endswith(".v") and not f.startswith(".") and not f.startswith("Extract"):
                 res.append(os.path.relpath(os.path.join(root, f), COQ))
     return res
 
@@ -180,6 +180,28 @@ def coq_make(targets=None, timeout=3000, keep_going=False):
         if targets:
             cmd += list(targets)
         rc, log = run(cmd, cwd=COQ, timeout=timeout)
+    return rc == 0, log
+
+
+def coq_extract(vfile, outdir, timeout=900):
+    """Run an extraction file (coq/<Family>/Extract*.v, not part of the .vo
+    build) with cwd = outdir so that the .ml/.mli land there.  The files it
+    Requires must have been built.  Returns (ok, log)."""
+    os.makedirs(outdir, exist_ok=True)
+    src = os.path.join(COQ, vfile)
+    with Lock("coq"):
+        rc, log = run(["coqc", "-Q", COQ, "Nexus", "-w", "-notation-overridden,-extraction",
+                       "-o", os.path.join(outdir, os.path.basename(vfile)[:-2] + ".vo"), src], cwd=outdir, timeout=timeout)
+    return rc == 0, log
+
+
+def ocaml_build(srcs, out, cwd, timeout=900):
+    """ocamlfind ocamlopt the given sources (order matters) into `out`."""
+    cmd = ["ocamlfind", "ocamlopt", "-O2", "-w", "-a", "-package", "str", "-linkpkg", "-o", out] + list(srcs)
+    rc, log = run(cmd, cwd=cwd, timeout=timeout)
+    if rc != 0:  # -O2 needs flambda; retry without
+        cmd = [c for c in cmd if c != "-O2"]
+        rc, log = run(cmd, cwd=cwd, timeout=timeout)
     return rc == 0, log
 
 
